@@ -6,6 +6,8 @@ CONSTANTS NP = 2
   Cap = 99
   D = 0
   Skip <- MCNoSkip
+  ResOut = 65533
+  ResOther = 65531
   Thin = FALSE
 INIT TrInit
 NEXT TrNext
